@@ -217,8 +217,11 @@ def rule_task(tier):
 
 def tasks(tier, seed):
     ts = []
-    shapes = [(3, 1, None), (3, 2, None), (4, 2, None), (3, 4, None), (2, 1, 2), (2, 2, 2), (3, 2, 2)] if tier == "quick" else \
-        [(3, 1, None), (3, 2, None), (4, 2, None), (4, 3, None), (3, 4, None), (2, 1, 2), (2, 2, 2), (3, 2, 2), (3, 3, 2), (2, 2, 3)]
+    # (n choices, batch q, out_dim); q > n — a batch larger than the remaining choices — for both optimisers
+    shapes = [(3, 1, None), (3, 2, None), (4, 2, None), (3, 4, None), (2, 1, 2), (2, 2, 2), (3, 2, 2), (2, 3, 2), (1, 2, 2)] \
+        if tier == "quick" else \
+        [(3, 1, None), (3, 2, None), (4, 2, None), (4, 3, None), (3, 4, None), (2, 1, 2), (2, 2, 2), (3, 2, 2), (3, 3, 2), (2, 2, 3),
+         (2, 3, 2), (1, 2, 2), (2, 4, 2), (2, 3, 3)]
     for n, q, od in shapes:
         ts.append({"id": f"optimise[n={n},q={q},out_dim={od}]", "fn": "optimise_task",
                    "args": {"n": n, "q": q, "out_dim": od, "tier": tier}, "weight": n * q * (od or 1)})
